@@ -52,6 +52,8 @@ pub struct Safety;
 pub struct SP {
     re: Regex,
     vm: bool,
+    /// the same pattern under backtrack_limit(1): searches may fail with an Err, nothing may panic or run away
+    limited: Option<Regex>,
 }
 
 fn check_caps(t: &str, c: &Captures<'_>) -> Result<(), String> {
@@ -94,7 +96,17 @@ impl PatProp for Safety {
         if n.has_f1() {
             st.class("feature:nullable-unbounded-loop");
         }
-        Prep::Ready(SP { re, vm })
+        let limited = if vm {
+            match engine::build_with(pat, |b| {
+                b.backtrack_limit(1);
+            }) {
+                Built::Ok(r) => Some(r),
+                _ => None,
+            }
+        } else {
+            None
+        };
+        Prep::Ready(SP { re, vm, limited })
     }
 
     fn eval(&self, _ctx: &RunCtx, p: &SP, _n: &Node, t: &str, pos: usize) -> Verdict {
@@ -160,6 +172,48 @@ impl PatProp for Safety {
                     let _ = re.try_replacen(t, lim, NoExpand("$0"));
                 }
             }
+            if pos == 0 {
+                if let Some(lre) = &p.limited {
+                    // error histories: keep pulling after an Err; every iterator must still end, with valid spans
+                    let bound = t.len() + 4;
+                    let mut k = 0;
+                    for m in lre.find_iter(t) {
+                        k += 1;
+                        if k > bound {
+                            return Err(("nontermination".into(), "find_iter under backtrack_limit(1) does not end".into()));
+                        }
+                        if let Ok(m) = m {
+                            if !span_ok(t, m.start(), m.end()) {
+                                return Err(("invalid-span".into(), format!("find_iter under backtrack_limit(1): {}..{}", m.start(), m.end())));
+                            }
+                            let _ = m.as_str();
+                        }
+                    }
+                    k = 0;
+                    for c in lre.captures_iter(t) {
+                        k += 1;
+                        if k > bound {
+                            return Err(("nontermination".into(), "captures_iter under backtrack_limit(1) does not end".into()));
+                        }
+                        if let Ok(c) = c {
+                            check_caps(t, &c).map_err(|e| ("invalid-span".to_string(), format!("captures_iter under backtrack_limit(1): {}", e)))?;
+                        }
+                    }
+                    k = 0;
+                    for s in lre.split(t) {
+                        k += 1;
+                        if k > bound + 1 {
+                            return Err(("nontermination".into(), "split under backtrack_limit(1) does not end".into()));
+                        }
+                        let _ = s;
+                    }
+                    for s in lre.splitn(t, 3) {
+                        let _ = s;
+                    }
+                    let _ = lre.try_replacen(t, 0, "X");
+                    let _ = lre.try_replacen(t, 0, "$0");
+                }
+            }
             Ok(matched)
         }));
         match r {
@@ -200,7 +254,7 @@ fn wild_spaces(ctx: &RunCtx) -> (Vec<Node>, Vec<Node>) {
 pub fn run_c05(ctx: &RunCtx) -> Outcome {
     let p = Safety;
     let mut o = Outcome::default();
-    o.rule = "unrestricted grammar (self-referential back-references, nullable loops, \\K and \\G anywhere, both conditional forms, nested look-arounds): exhaustive trees by node count, context x filler products, proptest byte vectors decoded into ASTs; texts over {a,é,€,😀,\\n} (<=3) and {a,b} (<=5/6); every public search entry point is called under catch_unwind at every char-boundary offset and every reported span is validated. Non-trivial = VM-compiled pattern, multi-byte text, at least one match reported. Distinct = distinct (pattern, text, offset).".into();
+    o.rule = "unrestricted grammar (self-referential back-references, nullable loops, \\K and \\G anywhere, both conditional forms, nested look-arounds): exhaustive trees by node count, context x filler products, proptest byte vectors decoded into ASTs; texts over {a,é,€,😀,\\n} (<=3) and {a,b} (<=5/6); every public search entry point is called under catch_unwind at every char-boundary offset and every reported span is validated; for VM patterns the iterators, split and replace are also driven under backtrack_limit(1), pulling on after Err items. Non-trivial = VM-compiled pattern, multi-byte text, at least one match reported. Distinct = distinct (pattern, text, offset).".into();
     o.assumptions = vec!["validity predicate only (no reference): runtime Err values are acceptable outcomes".into()];
     o.required_classes = vec!["engine:VM/0-delegates".into(), "feature:reference-to-open-group".into(), "feature:nullable-unbounded-loop".into(), "feature:cond".into(), "outcome:match".into()];
     let (enumerated, prods) = wild_spaces(ctx);
@@ -213,7 +267,7 @@ pub fn run_c05(ctx: &RunCtx) -> Outcome {
     if !stage(ctx, &mut o, &p, "context x filler (with conditionals) depth 2", &prods, &ptexts) {
         return o;
     }
-    let cases = if ctx.quick() { 200_000 } else { 3_000_000 };
+    let cases = if ctx.quick() { 120_000 } else { 3_000_000 };
     let rtexts: Vec<String> = {
         let mut t = gen::texts(&gen::MB, 2);
         t.extend(["aaaaaa", "aéaé€", "😀a😀", "ab\nab", "aaab", "abab"].iter().map(|s| s.to_string()));
@@ -571,6 +625,12 @@ impl PatProp for IterModel {
 
 pub fn iter_texts(quick: bool) -> Vec<String> {
     let mut t = gen::texts(&gen::SIGMA5, 3);
+    // stepping over characters of every UTF-8 length after an empty match
+    for c in gen::EDGE.iter().chain(['😀', '€'].iter()) {
+        for shape in ["#", "#a", "a#", "a#b", "##", "#a#"] {
+            t.push(shape.replace('#', &c.to_string()));
+        }
+    }
     t.extend(gen::texts(&['a', 'b'], if quick { 5 } else { 6 }).into_iter().filter(|s| s.len() > 3));
     t
 }
